@@ -26,6 +26,6 @@ PROP["lean_modules"].append("ConduitModel.Props.MonSound")
 
 META = {
     "text": "Lean 4 theorems, for every window size, threshold, outcome history and batch partition: the v1 ring buffer refines the abstract 'last size outcomes' specification (C07_window_refines), v2 batches decide exactly as v1 record-by-record (C07_v1_v2_same_decisions), size 0 removes the limit, threshold 0 tolerates none, refusal is sticky; under fan-out every position is released at most once and a nack vote on a non-terminal position wins (C07_ma_nack_once, C07_ma_nack_wins). Tied to the real dlqWindow of both engines by differential runs, to the API's config guards by regenerated facts, and the pipeline-level clauses (DLQ exactly once, ack only after confirmed DLQ write, DLQ in source order) by the C07 monitor on funnel traces. v2 worker level: C07_nack_log_shape, _dlq_then_ack, _failed_dlq_write_never_acks, _window_refusal_stops, _dlq_record_is_original (all states, scripts, windows). v1: C07_v1_dlq_once_in_source_order, _dlq_then_ack, _failed_dlq_write_never_acks, _rejected_unacked for the product model.",
-    "note": 'Window clause: full. Pipeline-level clauses for v2: PARTIAL: the composition of these leaf theorems with the task recursion of Worker.doTaskAttempt/doNextTask (whole-pass statement) is validated by equality of event logs against the executable Lean model and by the Lean-defined trace monitor on every implementation trace (serial fan-out orders, real concurrent fan-out, several sources into one shared sink), not proved. v1 (default engine) part: Props/*Stream when merged. Trusted: Lean kernel, factgen, harness/fakes, Go runtime. Monitor soundness is PROVED for the model for linear and one-level fan-out trees without record splitting (Props/MonSound: monitor_sound_linear_nosplit, monitor_sound_nosplit_fan1 and their per-clause forms — every clause of the Lean trace monitor is silent on every run of the model, over multi-batch runs, under the decidable hypotheses RootPreserving / NS / sorted roots); for split records and nested fan-out the whole-pass claim rests on event-log equality with the model and on the monitor evaluated on every implementation trace (partial).',
+    "note": 'Window clause: full. Pipeline-level clauses for v2: PARTIAL: the composition of these leaf theorems with the task recursion of Worker.doTaskAttempt/doNextTask (whole-pass statement) is validated by equality of event logs against the executable Lean model and by the Lean-defined trace monitor on every implementation trace (serial fan-out orders, real concurrent fan-out, several sources into one shared sink), not proved. v1 (default engine) part: Props/*Stream when merged. Trusted: Lean kernel, factgen, harness/fakes, Go runtime. Monitor soundness is PROVED for the model for linear and one-level fan-out trees — the only shapes lifecycle-poc builds (source → processors → fan-out → per-branch processors → destination) — RECORD SPLITTING INCLUDED (Props/MonSound: monitor_sound_linear, monitor_sound_fan1, the no-split forms monitor_sound_linear_nosplit / monitor_sound_nosplit_fan1 and the per-clause forms C01_v2_monitor_sound_*: every clause of the Lean trace monitor is silent on every run of the model, over multi-batch runs, any fuel/window/outcomes, under the decidable run hypotheses RootPreserving / FreshTags / sorted roots); for NESTED fan-out (a shape the engine API allows but the service never builds) the whole-pass claim rests on event-log equality with the model and on the monitor evaluated on every implementation trace (partial).',
     "technique": 'Lean 4 refinement proof (ring buffer -> sliding-window spec) + arbiter invariants + differential correspondence + trace monitor',
 }
